@@ -930,6 +930,14 @@ class RequestHandler(BaseProtocol, Generic[_Request]):
                 status=exc.status, reason=exc.reason, text=exc.text, headers=exc.headers
             )
             prepare_meth = resp.prepare
+        started = request._started_response
+        if started is not None and started is not resp:
+            # The handler already started another response object for this
+            # request: the head of this one would land inside its unfinished
+            # body. The connection is broken (see handle_error()).
+            raise ConnectionError(
+                "Another response is started already, cannot send this one"
+            )
         try:
             await prepare_meth(request)
             await resp.write_eof()
